@@ -76,7 +76,7 @@ def register(R):
   R.add(Contract(f'{MU}::safe_divide', P, types=dict(a='rreal', b='rreal'), ret='rreal',
                  ensures=['result == sdiv(a, b)'], note='0 when the denominator is 0'))
   R.add(Contract(f'{MU}::pos_sqrt', P, types=dict(value='rreal'), ret='rreal',
-                 raises={'ValueError': 'value < 0'},
+                 raises_unless={'ValueError': 'value >= 0'},
                  ensures=['result >= 0', 'result * result == value', 'result == sqrt(value)']))
 
   cm = dict(cm='_ConfusionMatrix')
